@@ -49,9 +49,12 @@ pub fn plan_router(w: &World, knobs: &Knobs, actor: &mut Actor, l: &Ledger) -> V
         };
         let mut limit_one = if rng.chance(2, 3) { 0 } else { pick_limit(rng, l, &p1.whirlpool, &s1, a_to_b_one) };
         let mut limit_two = if rng.chance(2, 3) { 0 } else { pick_limit(rng, l, &p2.whirlpool, &s2, a_to_b_two) };
-        if attempt >= 2 {
+        let deep_route = rng.chance(1, 4);
+        if attempt >= 2 || deep_route {
             let far = |s: &decode::Pool, atb: bool, rng: &mut crate::rng::Rng| {
-                let dt = 1 + rng.below(60 * s.tick_spacing as u64) as i32;
+                // mostly within the first tick array, one time in three deep into the second or third one
+                let reach: u64 = if rng.chance(1, 3) { 100 + rng.below(160) } else { 60 };
+                let dt = 1 + rng.below(reach * s.tick_spacing as u64) as i32;
                 let t = if atb { s.tick_current_index - dt } else { s.tick_current_index + dt };
                 model::sqrt_price_of_tick(t.clamp(MIN_TICK, MAX_TICK))
             };
